@@ -27,7 +27,7 @@ def reachable(shx):
     return objs
 
 
-def check_state(ctx, shx, case, deleted):
+def check_state(ctx, shx, case, deleted, names_too=True):
     from shelxfile.atoms.atom import Atom
     ats = shx.atoms.all_atoms
     ids = []
@@ -51,7 +51,9 @@ def check_state(ctx, shx, case, deleted):
         common.add_violation(ctx, 'atom IDs are not unique', case, 'unique', sorted(ids))
         return False
     names = [a.fullname.upper() for a in ats]
-    if len(set(names)) == len(names):
+    # the look-ups by name build the cached name index; they are left out at random after some steps so that the next edit also meets
+    # an index that has just been cleared (after a deletion) or has never been built (a file without restraints)
+    if names_too and len(set(names)) == len(names):
         for a in ats:
             if shx.atoms.get_atom_by_name(a.fullname) is not a:
                 common.add_violation(ctx, 'look-up by name_residue returns a different atom', dict(case, atom=a.fullname), a.fullname,
@@ -69,7 +71,7 @@ def check_state(ctx, shx, case, deleted):
             return False
     for d in deleted:
         views = {'atom list': any(a is d for a in ats), 'line list': any(x is d for x in shx._reslist),
-                 'name index': any(v is d for v in shx.atoms.atomsdict.values()), 'hydrogen list': any(a is d for a in shx.atoms.hydrogen_atoms),
+                 'name index': names_too and any(v is d for v in shx.atoms.atomsdict.values()), 'hydrogen list': any(a is d for a in shx.atoms.hydrogen_atoms),
                  'riding list': any(a is d for a in shx.atoms.riding_atoms), 'Q-peak list': any(a is d for a in shx.atoms.q_peaks)}
         left = [k for k, v in views.items() if v]
         if left:
@@ -104,7 +106,7 @@ def run(ctx):
             continue
         h = ec.History(shx, rng)
         deleted = []
-        if not check_state(ctx, shx, {'text': text, 'history': []}, deleted):
+        if not check_state(ctx, shx, {'text': text, 'history': []}, deleted, names_too=rng.random() < 0.5):
             continue
         ok = True
         for s in range(rng.randint(1, 10)):
@@ -125,9 +127,11 @@ def run(ctx):
                     ok = False
                     break
                 deleted += gone
-            if not check_state(ctx, shx, {'text': text, 'history': h.log}, deleted):
+            if not check_state(ctx, shx, {'text': text, 'history': h.log}, deleted, names_too=rng.random() < 0.5):
                 ok = False
                 break
+        if ok and not check_state(ctx, shx, {'text': text, 'history': h.log}, deleted):
+            ok = False
         if not ok:
             continue
         # identities of the line list for the Coq side: position -> running number of the object
